@@ -1,0 +1,10 @@
+//go:build !verif
+
+package base
+
+// VerifOn is false unless built with the `verif` tag; call sites are `if base.VerifOn { base.VerifEmit(...) }`
+// and compile to nothing.
+const VerifOn = false
+
+// VerifEmit is a no-op without the `verif` build tag.
+func VerifEmit(obj string, ev string, kv ...any) {}
